@@ -209,6 +209,7 @@ type batchOut struct {
 	WallS       float64          `json:"wall_s"`
 	ClassCounts map[string]int   `json:"class_counts,omitempty"`
 	Hang        *hangInfo        `json:"hang,omitempty"`
+	RunDigests  []string         `json:"run_digests,omitempty"`
 }
 
 type hangInfo struct {
@@ -990,7 +991,68 @@ func selftest(id string, n int) int {
 		}
 	}
 	wg.Wait()
-	fmt.Printf("selftest %s: %d seeds x %d processes (GOMAXPROCS 1/4/16 x 3), mismatches: %d\n", id, n, procs, bad)
+	// Isolation: a run must not depend on what its process executed before
+	// it. The same indices, once in the chunks above (one long process each)
+	// and once in many short processes of 7 runs whose boundaries fall
+	// elsewhere; per-run digest and step count must agree.
+	perRun := func(from, to int) (map[int]string, error) {
+		o := &batchOut{}
+		j := &job{Mode: "batch", Prop: id, Tier: "quick", Base: base, From: from, To: to}
+		if _, err := runWorker(spec, j, 900*time.Second, o, "VERIF_DEBUG_DIGESTS=1"); err != nil {
+			return nil, err
+		}
+		m := map[int]string{}
+		for _, l := range o.RunDigests {
+			var i int
+			var rest string
+			if k := strings.IndexByte(l, ':'); k > 0 {
+				fmt.Sscan(l[:k], &i)
+				rest = l[k+1:]
+			}
+			m[i] = rest
+		}
+		return m, nil
+	}
+	long := map[int]string{}
+	short := map[int]string{}
+	isoProcs := 0
+	collect := func(dst map[int]string, step int) {
+		var wg2 sync.WaitGroup
+		for from := 0; from < chunks*per; from += step {
+			wg2.Add(1)
+			sem <- struct{}{}
+			go func(from int) {
+				defer wg2.Done()
+				defer func() { <-sem }()
+				m, err := perRun(from, from+step)
+				mu.Lock()
+				defer mu.Unlock()
+				isoProcs++
+				if err != nil {
+					fmt.Fprintln(os.Stderr, "worker:", err)
+					bad++
+					return
+				}
+				for i, v := range m {
+					dst[i] = v
+				}
+			}(from)
+		}
+		wg2.Wait()
+	}
+	collect(long, per)
+	collect(short, 7)
+	iso := 0
+	for i := 0; i < chunks*per; i++ {
+		if a, b := long[i], short[i]; a != b {
+			if iso < 5 {
+				fmt.Printf("ORDER DEPENDENCE run %d: %q in a process of %d runs, %q in a process of 7\n", i, a, per, b)
+			}
+			iso++
+		}
+	}
+	bad += iso
+	fmt.Printf("selftest %s: %d seeds x %d processes (GOMAXPROCS 1/4/16 x 3), mismatches: %d; isolation: %d runs compared between processes of %d and of 7 runs (%d processes), %d differ\n", id, n, procs, bad-iso, chunks*per, per, isoProcs, iso)
 	if bad > 0 {
 		return 2
 	}
